@@ -4,7 +4,7 @@ package main
 //
 // Every case runs on a real node (protocol.Chain + TxPool on LevelDB, built with
 // harness/chainlib): a trunk of 20 blocks plus one block that fans two matured
-// OP_TRUE rewards out into 16 confirmed root outputs.  On top of the roots a
+// OP_TRUE rewards out into 12 confirmed root outputs.  On top of the roots a
 // small transaction DAG is built (chains, diamonds, fans, multi-parent orphans
 // in every input order, random DAGs with conflicts, retirement and vote
 // outputs, occasionally a "twin" = same inputs and outputs, other time range)
@@ -52,7 +52,9 @@ import (
 	. "verifharness/hlib"
 )
 
-func main() { Main("C22", runC22, map[string]func([]string) int{"batch": childBatch}) }
+func main() {
+	Main("C22", runC22, map[string]func([]string) int{"batch": childBatch, "template": childTemplate})
+}
 
 // ---------------------------------------------------------------- case description (replayable)
 
@@ -99,6 +101,7 @@ type BatchArgs struct {
 	N      int    `json:"n"`
 	Corpus bool   `json:"corpus"`
 	Dir    string `json:"dir"`
+	Tmpl   string `json:"tmpl"`
 }
 
 // ---------------------------------------------------------------- the world of one case
@@ -122,6 +125,11 @@ type env struct {
 }
 
 const rootLabel = 1000
+const rootsPerFan = 6
+const nRoots = 2 * rootsPerFan
+
+var errTooSmall = fmt.Errorf("universe not buildable (inputs too small or two identical transactions): draw another one")
+
 const unknownLabel = 999999
 const ttlTicks = 600
 
@@ -150,6 +158,8 @@ type caseRun struct {
 	sawOrph  bool
 	sawPool  bool
 	rejectK  int
+	outside  bool // the history has left the guard of the theorem (withdrawal, shared output ids)
+	cut      int  // number of leading steps compared with the model (-1: all)
 }
 
 func copyDir(src, dst string) error {
@@ -186,42 +196,75 @@ func copyDir(src, dst string) error {
 	return nil
 }
 
-// template chain: 20 empty blocks, then one block with two fan-out transactions (8 roots each)
-func newEnv(base string) (*env, error) {
+// template chain: 20 empty blocks, then one block with two fan-out transactions (6 roots each).
+// The world (blocks, roots) is built offline and is the same in every process; the node that stores
+// it is filled by a process of its own (child "template") which then exits: a node's background
+// goroutines keep reading its database, so it cannot be closed inside a process that lives on.
+func buildWorld() (*env, []*cl.BlockInfo, error) {
 	w := cl.Init(cl.DefaultOptions())
-	e := &env{w: w, base: base, tmpl: filepath.Join(base, "tmpl")}
-	n, err := cl.NewNode(e.tmpl)
-	if err != nil {
-		return nil, err
-	}
+	e := &env{w: w}
 	trunk := w.Trunk(w.Genesis, 20)
-	for _, b := range trunk {
-		if orphan, err := n.Process(b.Block); err != nil || orphan {
-			return nil, fmt.Errorf("trunk block %d: orphan=%v err=%v", b.Block.Height, orphan, err)
-		}
-	}
 	var fans []*types.Tx
 	for _, h := range []int{4, 8} {
 		rew := trunk[h].RewardOuts()
 		if len(rew) == 0 {
-			return nil, fmt.Errorf("no reward output at height %d", h+1)
+			return nil, nil, fmt.Errorf("no reward output at height %d", h+1)
 		}
-		f := cl.Transfer([]cl.Out{rew[0]}, 8, cl.DefaultFee, 0)
+		f := cl.Transfer([]cl.Out{rew[0]}, rootsPerFan, cl.DefaultFee, 0)
 		fans = append(fans, f)
-		for i := 0; i < 8; i++ {
+		for i := 0; i < rootsPerFan; i++ {
 			e.roots = append(e.roots, cl.Out{Tx: f, Pos: i})
 		}
 	}
 	b := w.NewBlock(trunk[len(trunk)-1], fans, cl.BlockOpt{})
-	if orphan, err := n.Process(b.Block); err != nil || orphan {
-		return nil, fmt.Errorf("fan-out block: orphan=%v err=%v", orphan, err)
-	}
 	e.tip = b
-	n.Close()
+	return e, append(trunk, b), nil
+}
+
+func childTemplate(args []string) int {
+	if len(args) != 1 {
+		return 2
+	}
+	_, blocks, err := buildWorld()
+	if err != nil {
+		fmt.Fprintln(os.Stderr, "harness child error:", err)
+		return 3
+	}
+	n, err := cl.NewNode(args[0])
+	if err != nil {
+		fmt.Fprintln(os.Stderr, "harness child error:", err)
+		return 3
+	}
+	for _, b := range blocks {
+		if orphan, err := n.Process(b.Block); err != nil || orphan {
+			fmt.Fprintf(os.Stderr, "harness child error: template block %d: orphan=%v err=%v\n", b.Block.Height, orphan, err)
+			return 3
+		}
+	}
+	return 0
+}
+
+func newEnv(base, tmpl string) (*env, error) {
+	e, _, err := buildWorld()
+	if err != nil {
+		return nil, err
+	}
+	e.base, e.tmpl = base, tmpl
 	return e, nil
 }
 
 func (e *env) newCase(r *Rng, spec CaseSpec) (*caseRun, error) {
+	c := &caseRun{e: e, tip: e.tip, r: r, spec: spec, byID: map[bc.Hash]*txInfo{}, outLabel: map[bc.Hash]int{},
+		creators: map[bc.Hash]int{}, nonOrig: map[bc.Hash]bool{}, chain: map[bc.Hash]bool{}, conf: map[int]bool{},
+		subm: map[int]bool{}, logExp: map[bc.Hash]uint64{}, withdr: map[bc.Hash]map[bc.Hash]bool{}, counts: map[string]int{}, cut: -1}
+	for i, o := range e.roots {
+		c.outLabel[o.ID()] = rootLabel + i
+		c.chain[o.ID()] = true
+		c.chain0 = append(c.chain0, rootLabel+i)
+	}
+	if err := c.build(); err != nil {
+		return nil, err
+	}
 	e.caseSeq++
 	dir := filepath.Join(e.base, fmt.Sprintf("case_%d", e.caseSeq))
 	if err := copyDir(e.tmpl, dir); err != nil {
@@ -231,17 +274,7 @@ func (e *env) newCase(r *Rng, spec CaseSpec) (*caseRun, error) {
 	if err != nil {
 		return nil, err
 	}
-	c := &caseRun{e: e, n: n, tip: e.tip, r: r, spec: spec, byID: map[bc.Hash]*txInfo{}, outLabel: map[bc.Hash]int{},
-		creators: map[bc.Hash]int{}, nonOrig: map[bc.Hash]bool{}, chain: map[bc.Hash]bool{}, conf: map[int]bool{},
-		subm: map[int]bool{}, logExp: map[bc.Hash]uint64{}, withdr: map[bc.Hash]map[bc.Hash]bool{}, counts: map[string]int{}}
-	for i, o := range e.roots {
-		c.outLabel[o.ID()] = rootLabel + i
-		c.chain[o.ID()] = true
-		c.chain0 = append(c.chain0, rootLabel+i)
-	}
-	if err := c.build(); err != nil {
-		return nil, err
-	}
+	c.n = n
 	return c, nil
 }
 
@@ -266,16 +299,19 @@ func (c *caseRun) build() error {
 				parts := strings.Split(ref, ".")
 				l, _ := strconv.Atoi(parts[0])
 				p, _ := strconv.Atoi(parts[1])
-				if l < 1 || l > len(c.univ) || p >= len(c.univ[l-1].Tx.Outputs) {
+				if l < 1 || l > len(c.univ) {
 					return fmt.Errorf("bad input reference %q", ref)
+				}
+				if p >= len(c.univ[l-1].Tx.Outputs) {
+					return errTooSmall // the parent was too small to be split
 				}
 				o = cl.Out{Tx: c.univ[l-1].Tx, Pos: p}
 			}
 			ins = append(ins, o)
 			sum += o.Amount()
 		}
-		if sum <= cl.DefaultFee+3000 {
-			return fmt.Errorf("transaction %d: inputs too small (%d)", label, sum)
+		if sum <= cl.DefaultFee+300000 {
+			return errTooSmall
 		}
 		left := sum - cl.DefaultFee
 		var outs []cl.OutSpec
@@ -288,7 +324,7 @@ func (c *caseRun) build() error {
 			left -= 100000000
 		}
 		k := src.NOuts
-		if k < 1 {
+		if k < 1 || left < 4*cl.DefaultFee*uint64(k) {
 			k = 1
 		}
 		for j := 0; j < k; j++ {
@@ -319,7 +355,7 @@ func (c *caseRun) build() error {
 			c.creators[*id]++
 		}
 		if _, dup := c.byID[tx.ID]; dup {
-			return fmt.Errorf("transaction %d duplicates an earlier one", label)
+			return errTooSmall // two identical transactions: draw another universe
 		}
 		c.byID[tx.ID] = ti
 		c.univ = append(c.univ, ti)
@@ -328,10 +364,6 @@ func (c *caseRun) build() error {
 }
 
 // ---------------------------------------------------------------- snapshots and the oracle
-
-type snap struct {
-	s *protocol.VerifPoolSnapshot
-}
 
 func (c *caseRun) snapshot() *protocol.VerifPoolSnapshot { return c.n.Pool.VerifSnapshot() }
 
@@ -352,6 +384,15 @@ func (c *caseRun) complete(s *protocol.VerifPoolSnapshot, t *txInfo) bool {
 	return true
 }
 
+func (c *caseRun) lblInPool(s *protocol.VerifPoolSnapshot, t *txInfo) bool {
+	for _, h := range s.Pool {
+		if h == t.Tx.ID {
+			return true
+		}
+	}
+	return false
+}
+
 func (c *caseRun) lbl(h bc.Hash) int {
 	if t, ok := c.byID[h]; ok {
 		return t.Label
@@ -365,8 +406,15 @@ func (c *caseRun) olbl(h bc.Hash) int {
 	return unknownLabel
 }
 
+// one report per distinct failure of a case (a broken entry stays broken in the following steps)
 func (c *caseRun) fail(step int, class, msg string) {
-	c.fails = append(c.fails, Fail{What: "class=" + class + ": " + msg, Step: step})
+	what := "class=" + class + ": " + msg
+	for _, f := range c.fails {
+		if f.What == what {
+			return
+		}
+	}
+	c.fails = append(c.fails, Fail{What: what, Step: step})
 }
 
 // the property predicate on the implementation's maps
@@ -485,6 +533,7 @@ func (c *caseRun) noteWithdrawals(pre, post *protocol.VerifPoolSnapshot, chainPr
 				}
 				c.withdr[h][o] = true
 				c.counts["event:withdrawal"]++
+				c.outside = true
 			}
 		}
 	}
@@ -500,12 +549,11 @@ func (c *caseRun) dump(s *protocol.VerifPoolSnapshot) string {
 		orph = append(orph, c.lbl(h))
 	}
 	sort.Ints(orph)
-	type kv struct{ k, v int }
-	var ut []kv
-	for o, h := range s.Utxo {
-		ut = append(ut, kv{c.olbl(o), c.lbl(h)})
+	var ut []int // the keys only: which of two twins an entry points to depends on Go's map order
+	for o := range s.Utxo {
+		ut = append(ut, c.olbl(o))
 	}
-	sort.Slice(ut, func(i, j int) bool { return ut[i].k < ut[j].k })
+	sort.Ints(ut)
 	type ke struct {
 		k  int
 		vs []int
@@ -521,14 +569,7 @@ func (c *caseRun) dump(s *protocol.VerifPoolSnapshot) string {
 	}
 	sort.Slice(ob, func(i, j int) bool { return ob[i].k < ob[j].k })
 	var sb strings.Builder
-	sb.WriteString("(" + intList(pool) + ", [")
-	for i, x := range ut {
-		if i > 0 {
-			sb.WriteString("; ")
-		}
-		fmt.Fprintf(&sb, "(%d, %d)", x.k, x.v)
-	}
-	sb.WriteString("], " + intList(orph) + ", [")
+	sb.WriteString("(" + intList(pool) + ", " + intList(ut) + ", " + intList(orph) + ", [")
 	for i, x := range ob {
 		if i > 0 {
 			sb.WriteString("; ")
@@ -564,6 +605,13 @@ func (c *caseRun) record(step int, kind string, iop string, flag bool, pre, post
 	c.oracle(step, kind, pre, post)
 	c.iops = append(c.iops, iop)
 	c.obs = append(c.obs, fmt.Sprintf("(%s, %s)", CoqBool(flag), c.dump(post)))
+	// Outside the guard what processOrphans does next may depend on Go's map order (an orphan that is
+	// not indexed under a missing parent is promoted or not depending on when it is looked at): the
+	// model is compared up to and including the step that left the guard; the oracle keeps running.
+	if c.outside && c.cut < 0 {
+		c.cut = len(c.iops)
+		c.counts["compare:prefix-only"]++
+	}
 	// orphans that left lose their withdrawal marks
 	for h := range c.withdr {
 		if _, ok := post.Orphans[h]; !ok {
@@ -595,6 +643,12 @@ func (c *caseRun) apply(step int, op OpSpec) error {
 		isOrphan, err := c.n.Chain.ValidateTx(t.Tx)
 		if err != nil {
 			return fmt.Errorf("ValidateTx refused transaction %d of the universe: %v", t.Label, err)
+		}
+		for _, other := range c.univ {
+			if other != t && c.subm[other.Label] && len(other.Outs) > 0 && len(t.Outs) > 0 && other.Outs[0] == t.Outs[0] {
+				c.outside = true // both twins have been submitted
+				c.counts["event:twin-submitted"]++
+			}
 		}
 		post := c.snapshot()
 		if isOrphan {
@@ -771,8 +825,8 @@ func (c *caseRun) apply(step int, op OpSpec) error {
 
 // ---------------------------------------------------------------- generators
 
-func rootRef(k int) string      { return "r" + strconv.Itoa(k) }
-func outRef(l, p int) string    { return strconv.Itoa(l) + "." + strconv.Itoa(p) }
+func rootRef(k int) string   { return "r" + strconv.Itoa(k) }
+func outRef(l, p int) string { return strconv.Itoa(l) + "." + strconv.Itoa(p) }
 func perm(r *Rng, n int) []int {
 	p := make([]int, n)
 	for i := range p {
@@ -786,9 +840,9 @@ func perm(r *Rng, n int) []int {
 }
 
 func genUniverse(r *Rng) (string, []TxSpec) {
-	roots := perm(r, 16)
+	roots := perm(r, nRoots)
 	nextRoot := 0
-	root := func() string { nextRoot++; return rootRef(roots[(nextRoot-1)%16]) }
+	root := func() string { nextRoot++; return rootRef(roots[(nextRoot-1)%nRoots]) }
 	var u []TxSpec
 	add := func(s TxSpec) int { u = append(u, s); return len(u) }
 	shape := []string{"chain", "diamond", "multi-parent", "multi-parent", "fan", "random", "random", "two-families"}[r.Intn(8)]
@@ -942,6 +996,50 @@ func (g *genState) next() *OpSpec {
 			fresh = append(fresh, t.Label)
 		}
 	}
+	// an orphan whose parents are all available (confirmed behind the pool's back): re-submit it
+	var ready []int
+	for h := range s.Orphans {
+		if t, ok := c.byID[h]; ok && c.complete(s, t) {
+			ready = append(ready, t.Label)
+		}
+	}
+	sort.Ints(ready)
+	if len(ready) > 0 && r.Chance(60) {
+		return &OpSpec{K: "submit", T: ready[r.Intn(len(ready))]}
+	}
+	// a block that confirms the missing, never pooled parent of an orphan
+	if len(s.Orphans) > 0 && r.Chance(12) {
+		var ps []int
+		for _, t := range c.univ {
+			if c.conf[t.Label] || c.lblInPool(s, t) {
+				continue
+			}
+			ok := true
+			for _, o := range t.Tx.SpentOutputIDs {
+				if !c.chain[o] {
+					ok = false
+				}
+			}
+			feeds := false
+			for h := range s.Orphans {
+				if y, okk := c.byID[h]; okk {
+					for _, in := range y.Tx.SpentOutputIDs {
+						for _, id := range t.Tx.ResultIds {
+							if in == *id {
+								feeds = true
+							}
+						}
+					}
+				}
+			}
+			if ok && feeds {
+				ps = append(ps, t.Label)
+			}
+		}
+		if len(ps) > 0 {
+			return &OpSpec{K: "confirm", Ts: []int{ps[r.Intn(len(ps))]}}
+		}
+	}
 	for tries := 0; tries < 20; tries++ {
 		x := r.Intn(100)
 		switch {
@@ -958,12 +1056,25 @@ func (g *genState) next() *OpSpec {
 		case x < 60:
 			var cand []int
 			cand = append(cand, seen...)
+			var confd, orph []int // sorted: the PRNG must not see Go's map order
 			for l := range c.conf {
-				cand = append(cand, l)
+				confd = append(confd, l)
+			}
+			sort.Ints(confd)
+			for _, l := range confd {
+				if r.Chance(12) {
+					cand = append(cand, l)
+				}
 			}
 			for h := range s.Orphans {
-				if t, ok := c.byID[h]; ok && r.Chance(70) {
-					cand = append(cand, t.Label, t.Label)
+				if t, ok := c.byID[h]; ok {
+					orph = append(orph, t.Label)
+				}
+			}
+			sort.Ints(orph)
+			for _, l := range orph {
+				if r.Chance(70) {
+					cand = append(cand, l, l)
 				}
 			}
 			if len(cand) == 0 {
@@ -972,7 +1083,10 @@ func (g *genState) next() *OpSpec {
 			sort.Ints(cand)
 			return &OpSpec{K: "submit", T: cand[r.Intn(len(cand))]}
 		case x < 70:
-			if len(s.Pool) > 0 && r.Chance(75) {
+			if len(s.Pool) == 0 && r.Chance(70) {
+				continue
+			}
+			if len(s.Pool) > 0 && r.Chance(85) {
 				var ls []int
 				for _, h := range s.Pool {
 					ls = append(ls, c.lbl(h))
@@ -1108,8 +1222,12 @@ func runCase(e *env, r *Rng, idx int, spec CaseSpec, scripted bool, nops int) (*
 		txs = append(txs, txCoq(t))
 	}
 	res := &CaseResult{Idx: idx, Spec: c.spec, Counts: c.counts, Nontrivial: c.sawOrph && c.sawPool, Fails: c.fails}
-	res.Model = fmt.Sprintf("run_case %s [%s] [%s]", intList(c.chain0), strings.Join(txs, "; "), strings.Join(c.iops, "; "))
-	res.Observed = "Some [" + strings.Join(c.obs, "; ") + "]"
+	iops, obs := c.iops, c.obs
+	if c.cut >= 0 {
+		iops, obs = iops[:c.cut], obs[:c.cut]
+	}
+	res.Model = fmt.Sprintf("run_case %s [%s] [%s]", intList(c.chain0), strings.Join(txs, "; "), strings.Join(iops, "; "))
+	res.Observed = "Some [" + strings.Join(obs, "; ") + "]"
 	return res, nil
 }
 
@@ -1122,7 +1240,7 @@ func childBatch(args []string) int {
 		fmt.Fprintln(os.Stderr, err)
 		return 2
 	}
-	e, err := newEnv(a.Dir)
+	e, err := newEnv(a.Dir, a.Tmpl)
 	if err != nil {
 		fmt.Fprintln(os.Stderr, "harness child error:", err)
 		return 3
@@ -1155,6 +1273,10 @@ func childBatch(args []string) int {
 		shape, univ := genUniverse(r)
 		nops := 5 + r.Intn(12)
 		res, err := runCase(e, r, idx, CaseSpec{Shape: shape, Univ: univ}, false, nops)
+		if err == errTooSmall {
+			k--
+			continue
+		}
 		if err != nil {
 			fmt.Fprintln(os.Stderr, "harness child error:", err)
 			return 3
@@ -1232,22 +1354,33 @@ func runBatch(a BatchArgs) batchOut {
 }
 
 func runC22(c *Ctx) error {
-	c.Stats.Rule = "transaction DAGs over 16 confirmed OP_TRUE roots of a real chain (chain, diamond, fan, multi-parent orphan with its inputs in random order, two families, random DAG with occasional double spends; retirement and vote outputs; 6% with a twin transaction) and 5-16 operations chosen from the pool's current state: submit a fresh transaction (children before parents more often than not), re-submit a pooled / orphaned / confirmed one, RemoveTransaction (pooled, unknown or other id), confirm a block of spendable transactions on the real chain, ExpireOrphan at / just after an orphan's expiration / before all / after all, refused dust or overspending transaction; a fixed corpus (parents of a 2- and 3-parent orphan in every arrival order, re-submission after confirmation, removal of an unconfirmed parent, twins, expiry boundary) runs first; distinct = distinct (universe, operation list); non-trivial = the case had at least one orphan and at least one pooled transaction"
-	total := c.N(700, 6000)
+	c.Stats.Rule = "transaction DAGs over 12 confirmed OP_TRUE roots of a real chain (chain, diamond, fan, multi-parent orphan with its inputs in random order, two families, random DAG with occasional double spends; retirement and vote outputs; 6% with a twin transaction) and 5-16 operations chosen from the pool's current state: submit a fresh transaction (children before parents more often than not), re-submit a pooled / orphaned / confirmed one, RemoveTransaction (pooled, unknown or other id), confirm a block of spendable transactions on the real chain, ExpireOrphan at / just after an orphan's expiration / before all / after all, refused dust or overspending transaction; a fixed corpus (parents of a 2- and 3-parent orphan in every arrival order, re-submission after confirmation, removal of an unconfirmed parent, twins, expiry boundary) runs first; distinct = distinct (universe, operation list); non-trivial = the case had at least one orphan and at least one pooled transaction"
+	total := c.N(500, 4000)
 	per := 50
 	if c.Thorough() {
 		per = 125
 	}
-	base, err := os.MkdirTemp("", "c22run")
+	tmp := ""
+	if st, err := os.Stat("/dev/shm"); err == nil && st.IsDir() {
+		tmp = "/dev/shm" // LevelDB opens sync their journal; a memory file system keeps a case at ~70 ms
+	}
+	base, err := os.MkdirTemp(tmp, "c22run")
+	if err != nil && tmp != "" {
+		base, err = os.MkdirTemp("", "c22run")
+	}
 	if err != nil {
 		return err
 	}
 	defer os.RemoveAll(base)
+	tmpl := filepath.Join(base, "tmpl")
+	if out, err := exec.Command(os.Args[0], "child", "template", tmpl).CombinedOutput(); err != nil {
+		return fmt.Errorf("building the template chain: %v: %s", err, out)
+	}
 	var batches []BatchArgs
 	ncorpus := len(corpus())
 	first := 0
 	for k := 0; first < total+ncorpus; k++ {
-		a := BatchArgs{Seed: c.Rng.Next(), First: first, N: per, Corpus: k == 0, Dir: filepath.Join(base, fmt.Sprintf("b%d", k))}
+		a := BatchArgs{Seed: c.Rng.Next(), First: first, N: per, Corpus: k == 0, Dir: filepath.Join(base, fmt.Sprintf("b%d", k)), Tmpl: tmpl}
 		if k == 0 {
 			first += ncorpus
 		}
@@ -1271,6 +1404,12 @@ func runC22(c *Ctx) error {
 		}(i)
 	}
 	wg.Wait()
+	type pendingFail struct {
+		what string
+		desc interface{}
+	}
+	var failFirst, failLater []pendingFail
+	perClass := map[string]int{}
 	header := "From Coq Require Import List NArith Bool.\nFrom C22 Require Import Model Run.\nImport ListNotations.\nOpen Scope N_scope.\n"
 	for i, bo := range outs {
 		if bo.err != nil {
@@ -1291,20 +1430,34 @@ func runC22(c *Ctx) error {
 			}
 			id := c.Cases.Add(r.Model, r.Observed)
 			c.Stats.Count("model_evaluated")
-			if id < 40 || len(r.Fails) > 0 {
+			if id < 1500 || len(r.Fails) > 0 {
 				c.Stats.CaseIndex[strconv.Itoa(id)] = r.Spec
 			}
 			if r.Idx%97 == 5 {
 				c.Stats.Sample(map[string]interface{}{"case": r.Spec, "observed": r.Observed})
 			}
 			for _, f := range r.Fails {
-				c.Stats.Fail(f.What, map[string]interface{}{"case": r.Spec, "step": f.Step, "batch_seed": batches[i].Seed, "index": r.Idx})
-				c.Stats.Count("oracle-failure:" + strings.SplitN(strings.TrimPrefix(f.What, "class="), ":", 2)[0])
+				class := strings.SplitN(strings.TrimPrefix(f.What, "class="), ":", 2)[0]
+				c.Stats.Count("oracle-failure:" + class)
+				pf := pendingFail{f.What, map[string]interface{}{"case": r.Spec, "step": f.Step, "batch_seed": batches[i].Seed, "index": r.Idx}}
+				if class == "withdrawn-parent" || class == "shared-output-id" {
+					if perClass[class] < 3 {
+						failLater = append(failLater, pf)
+					}
+					perClass[class]++
+				} else {
+					failFirst = append(failFirst, pf)
+				}
 			}
 		}
 		if bo.crash != "" {
-			c.Stats.Fail("class=child-crash: "+bo.crash, map[string]interface{}{"batch_seed": batches[i].Seed})
+			c.Stats.Count("oracle-failure:child-crash")
+			failFirst = append(failFirst, pendingFail{"class=child-crash: " + bo.crash, map[string]interface{}{"batch_seed": batches[i].Seed}})
 		}
+	}
+	// hlib keeps the first 20 failures: classes recorded as findings must not crowd out anything else
+	for _, f := range append(failFirst, failLater...) {
+		c.Stats.Fail(f.what, f.desc)
 	}
 	return c.Cases.Write(c.Out, header, "cres", "cres_eqb")
 }
